@@ -137,6 +137,19 @@ pub fn gen_case(t: &mut Tape) -> Case {
             l.extend(std::iter::repeat(b'q').take(n));
         }
         l.retain(|b| *b != term.byte());
+        // NUL-terminated records may contain line feeds (and LF-terminated
+        // lines NULs): they are ordinary bytes there, but the code has many
+        // places where a terminator byte is spelled out
+        if t.chance(1, 3) {
+            let other = if term == Term::Nul { b'\n' } else { 0u8 };
+            if term == Term::Nul || matches!(mat, Mat::X(_)) {
+                let k = 1 + t.below(4);
+                for _ in 0..k {
+                    let p = t.below(l.len() + 1);
+                    l.insert(p, other);
+                }
+            }
+        }
         lines.push(l);
     }
     if big && !lines.is_empty() {
